@@ -1,1 +1,88 @@
-From TL Require Import Base.Base.
+(* C02 - Arguments are evaluated once, in order, in the caller's scope, then bound. *)
+(* Statements only; the proofs are in Proofs/Calls.v.                               *)
+From TL Require Import Base.Base Model.Reader Model.Printer Model.Store Model.Eval Model.Init.
+From TL Require Import Proofs.Calls.
+
+(* zip_function_args: for every parameter-list shape (required, &optional,  *)
+(* &rest), every argument list and every interpreter instance, the call       *)
+(* evaluates the consumed argument expressions once each, left to right, in    *)
+(* the state of the caller - no binding is made in between - and then          *)
+(* distributes the VALUES over the parameters by the pure function zip_pure   *)
+(* (missing optionals nil, surplus collected by &rest, too few = error).       *)
+Theorem C02_arguments_then_parameters : forall rec ps args s,
+  zip_args rec true ps args s = zip_factored rec ps args s.
+Proof. exact zip_args_factors. Qed.
+
+(* a defun / lambda / macro call = evaluate arguments; bind all parameters; *)
+(* body; unbind                                                               *)
+Theorem C02_call_factors : forall rec e psx body args s pl,
+  parse_params psx = Ok pl ->
+  eval_function rec e psx body args s =
+  match zip_args rec e pl (items args) s with
+  | (Ok (vs, []), s1) =>
+      bind (bind_all (map p_sym pl) vs [])
+           (fun _ => catch (eval_progn rec body)
+                           (fun r => bind (unbind_all (map p_sym pl)) (fun _ => lift r))) s1
+  | (Ok (_, _ :: _), s1) => (Err EType, s1)
+  | (Err e0, s1) => (Err e0, s1) | (Panic n, s1) => (Panic n, s1) | (Fuel, s1) => (Fuel, s1)
+  end.
+Proof. exact call_factors. Qed.
+
+(* values handed over by funcall, mapcar, seq-*, sort, assoc test functions *)
+(* are never evaluated a second time: with evalp = false the distribution     *)
+(* does not call the interpreter at all                                        *)
+Theorem C02_values_not_reevaluated : forall rec ps vs s,
+  zip_args rec false ps vs s =
+  match zip_pure ps (firstn (n_used ps (List.length vs)) vs) with
+  | Ok b => (Ok (b, skipn (n_used ps (List.length vs)) vs), s)
+  | Err e => (Err e, s) | Panic n => (Panic n, s) | Fuel => (Fuel, s)
+  end.
+Proof. exact zip_args_values_untouched. Qed.
+
+(* built-ins applied to values receive them quoted (unless self-evaluating): *)
+(* their own argument evaluation returns exactly the value                     *)
+Theorem C02_builtin_receives_values : forall F f vs s,
+  eval_each (run F (S f)) (map quote_arg vs) s = (Ok vs, s).
+Proof. exact eval_each_quoted. Qed.
+
+(* too many or too few arguments: an error, and the body is not run *)
+Theorem C02_too_many_no_body : forall rec e psx body args s pl vs x rest s1,
+  parse_params psx = Ok pl -> zip_args rec e pl (items args) s = (Ok (vs, x :: rest), s1) ->
+  eval_function rec e psx body args s = (Err EType, s1).
+Proof. exact too_many_args_no_body. Qed.
+Theorem C02_failed_arguments_no_body : forall rec e psx body args s pl r s1,
+  parse_params psx = Ok pl -> zip_args rec e pl (items args) s = (r, s1) ->
+  (forall x, r <> Ok x) ->
+  exists r', eval_function rec e psx body args s = (r', s1) /\ (forall x, r' <> Ok x) /\
+             forall body2, eval_function rec e psx body2 args s = (r', s1).
+Proof. exact failed_args_no_body. Qed.
+Theorem C02_consumed_at_most_supplied : forall ps n, (n_used ps n <= n)%nat.
+Proof. exact n_used_le. Qed.
+
+Print Assumptions C02_arguments_then_parameters. Print Assumptions C02_call_factors.
+Print Assumptions C02_values_not_reevaluated. Print Assumptions C02_builtin_receives_values.
+Print Assumptions C02_too_many_no_body. Print Assumptions C02_failed_arguments_no_body.
+Print Assumptions C02_consumed_at_most_supplied.
+
+(* non-vacuity: the caller's variable a is read by the second argument after *)
+(* the first argument was evaluated but before the parameter a is bound       *)
+Definition F0 : fops :=
+  {| f_add := fun _ _ => 0%Z; f_sub := fun _ _ => 0%Z; f_mul := fun _ _ => 0%Z;
+     f_div := fun _ _ => 0%Z; f_rem := fun _ _ => 0%Z; f_pow := fun _ _ => 0%Z;
+     f_max := fun _ _ => 0%Z; f_min := fun _ _ => 0%Z; f_of_int := fun z => z;
+     f_to_int := fun z => z; f_round := fun z => z; f_trunc := fun z => z;
+     f_lt := Z.ltb; f_le := Z.leb; f_eq := Z.eqb; f_is_finite := fun _ => true;
+     f_to_dec := fun _ => []; f_of_dec := fun _ => None |}.
+Definition run0 (p : string) :=
+  let '(r, s) := eval_string F0 80 (s2t p) (init_state [] None) in (r, map fst (log s)).
+Example C02_ex1 :
+  run0 "(defun f (a b &optional c &rest d) (list a b c d)) (let ((a 1)) (f (tick 1 2) (tick 2 a) (tick 3 3) (tick 4 4) (tick 5 5)))"
+  = (fst (run0 "'(2 1 3 (4 5))"), [5; 4; 3; 2; 1]%Z).
+Proof. vm_compute. reflexivity. Qed.
+Example C02_ex2 : fst (run0 "(mapcar 'symbolp '(a 1))") = fst (run0 "'(t nil)").
+Proof. vm_compute. reflexivity. Qed.
+Example C02_ex3 : run0 "(defun g (a) (tick 9 a)) (g (tick 1 1) (tick 2 2))" = (Err EType, [1]%Z).
+Proof. vm_compute. reflexivity. Qed.
+
+Check C02_arguments_then_parameters : forall rec ps args s,
+  zip_args rec true ps args s = zip_factored rec ps args s.
